@@ -87,6 +87,8 @@ struct Gen {
     r: Rng,
     ng: u16,
     mal: bool,
+    /// the font gets a feat table: subtables mostly listen to single feature-flag bits
+    featy: bool,
 }
 
 impl Gen {
@@ -318,19 +320,26 @@ impl Gen {
             5 | 6 => self.ligature(),
             _ => self.insertion(),
         };
-        let sub_feature_flags = if self.r.chance(1, 2) { 0xFFFF_FFFF } else { self.flags() };
+        let sub_feature_flags = if self.featy && self.r.chance(2, 3) {
+            1 << self.r.below(3)
+        } else if self.r.chance(1, 2) {
+            0xFFFF_FFFF
+        } else {
+            self.flags()
+        };
         MorxSubtable { coverage: self.coverage(), sub_feature_flags, kind }
     }
 
     fn font(&mut self) -> FontSpec {
         let mut s = FontSpec::basic(self.ng);
+        self.featy = self.r.chance(3, 5);
         let n_chains = self.r.range(1, 3) as usize;
         let mut chains = Vec::new();
         for _ in 0..n_chains {
             let n_sub = self.r.range(1, 4) as usize;
             // chain feature entries: (type, setting) pairs that user features can reach through the mapping
             // table, with overlapping enable/disable masks so that the order of the updates matters
-            let n_feat = self.r.below(6) as usize;
+            let n_feat = if self.featy { self.r.range(2, 7) as usize } else { self.r.below(4) as usize };
             let features = (0..n_feat)
                 .map(|_| {
                     let (feature_type, feature_setting) = if self.r.chance(1, 8) {
@@ -338,18 +347,19 @@ impl Gen {
                     } else {
                         *self.r.pick(&CHAIN_FEATURES)
                     };
-                    MorxFeature { feature_type, feature_setting, enable_flags: self.flags(), disable_flags: !self.flags() }
+                    let (en, dis) = if self.featy { (self.r.below(8) as u32, !(self.r.below(8) as u32)) } else { (self.flags(), !self.flags()) };
+                    MorxFeature { feature_type, feature_setting, enable_flags: en, disable_flags: dis }
                 })
                 .collect();
-            let default_flags = if self.r.chance(2, 3) { 1 | self.flags() } else { self.flags() };
+            let default_flags = if self.featy { self.r.below(8) as u32 } else if self.r.chance(2, 3) { 1 | self.flags() } else { self.flags() };
             chains.push(MorxChain { default_flags, features, subtables: (0..n_sub).map(|_| self.subtable()).collect() });
         }
         s.morx = Some(Morx { version: if self.r.chance(1, 3) { 3 } else { 2 }, chains });
         // feature name table: a random subset of the types the mapping table can produce
-        if self.r.chance(3, 5) {
+        if self.featy {
             let mut names = Vec::new();
             for (ty, excl) in [(1u16, false), (3, true), (6, true), (17, true), (21, true), (35, false), (37, true), (38, true)] {
-                if self.r.chance(1, 2) {
+                if self.r.chance(3, 4) {
                     let n_set = if self.r.chance(1, 8) { 0 } else { self.r.range(1, 4) as usize };
                     let settings: Vec<u16> = (0..n_set as u16).map(|k| if self.r.chance(1, 6) { k + 7 } else { k }).collect();
                     // the exclusive bit usually follows Apple's registry, sometimes not
@@ -412,7 +422,7 @@ fn font_rng(seed: u64, stream: Stream, i: u64) -> Rng {
 fn gen_font(seed: u64, stream: Stream, i: u64) -> (FontSpec, Rng) {
     let mut r = font_rng(seed, stream, i);
     let ng = r.range(6, 25) as u16;
-    let mut g = Gen { r, ng, mal: stream == Stream::Mal };
+    let mut g = Gen { r, ng, mal: stream == Stream::Mal, featy: false };
     let f = g.font();
     (f, g.r)
 }
@@ -421,14 +431,14 @@ fn gen_req(r: &mut Rng, ng: u16, has_feat: bool) -> Req {
     let len = match r.below(10) {
         0 => 0,
         1 => 1,
-        2 => r.range(13, 40) as usize,
+        2 => if r.chance(1, 4) { r.range(70, 300) as usize } else { r.range(13, 40) as usize },
         _ => r.range(2, 12) as usize,
     };
     // a few glyphs dominate so that multi-glyph patterns recur
     let hot: Vec<u16> = (0..4).map(|_| 1 + r.below(ng as u64 - 1) as u16).collect();
     let mut cps = Vec::new();
     for _ in 0..len {
-        let g = if r.chance(1, 2) { *r.pick(&hot) } else { 1 + r.below(ng as u64 - 1) as u16 };
+        let g = if r.chance(1, 2) || (len >= 70 && r.chance(9, 10)) { *r.pick(&hot) } else { 1 + r.below(ng as u64 - 1) as u16 };
         // an unmapped private-use character now and then (glyph 0)
         let cp = if r.chance(1, 40) { pua(ng as u32 + 7) } else { pua(g as u32 - 1) };
         cps.push(cp);
@@ -542,6 +552,7 @@ fn gen(args: &[String]) {
         }
         for j in 0..texts {
             let req = gen_req(&mut r, spec.num_glyphs, spec.feat.is_some());
+            let t0 = std::time::Instant::now();
             let res = match shape_guarded(&bytes, &req, limit_ms) {
                 Some(r) => r,
                 None => {
@@ -553,6 +564,7 @@ fn gen(args: &[String]) {
                     continue;
                 }
             };
+            let us = t0.elapsed().as_micros();
             shapes += 1;
             match &res {
                 Ok(out) => {
@@ -571,7 +583,9 @@ fn gen(args: &[String]) {
                                 }
                             }
                         }
-                        if out.len() > BIG {
+                        // a shape that took long built a long intermediate buffer (e.g. inserted glyphs that a later
+                        // subtable deleted): as costly for the list-based model as a long output
+                        if out.len() > BIG || us > 2500 {
                             println!("case {} {} {} uf={} -> big {} {}", i, j, fmt_req(&req), fmt_uf(&req), out.len(), digest(out));
                         } else {
                             println!("case {} {} {} uf={} -> ok {}", i, j, fmt_req(&req), fmt_uf(&req), fmt_out(out));
@@ -788,7 +802,7 @@ fn oracle(args: &[String]) {
     let mut t1 = Tally { name: "noncontextual", runs: 0, changed: 0, fails: 0 };
     for _ in 0..n {
         let ng = r.range(6, 25) as u16;
-        let mut g = Gen { r: r.clone(), ng, mal: false };
+        let mut g = Gen { r: r.clone(), ng, mal: false, featy: false };
         let l = g.glyph_lookup();
         r = g.r;
         let cov = if r.chance(1, 3) { morx_coverage::BACKWARDS } else { 0 } | if r.chance(1, 3) { morx_coverage::LOGICAL } else { 0 };
@@ -888,7 +902,30 @@ fn oracle(args: &[String]) {
         };
         let spec = morx_font(ng, chain1(kind, 0));
         for _ in 0..4 {
-            let text = rand_text(&mut r, &[a, b, 4, a, b], 10);
+            // one text in three piles components up: runs of 60..150 a's (every a pushes, nothing pops) so that
+            // match_length crosses LIGATURE_MAX_MATCHES (64), 128, ... before a b completes the pair
+            let text = if r.chance(1, 3) {
+                let mut t: Vec<u16> = Vec::new();
+                for _ in 0..r.range(1, 3) {
+                    for _ in 0..r.range(60, 150) {
+                        t.push(a);
+                    }
+                    if r.chance(1, 3) {
+                        t.push(4);
+                        for _ in 0..r.range(1, 10) {
+                            t.push(a);
+                        }
+                    }
+                    t.push(b);
+                    if r.chance(1, 2) {
+                        t.push(*r.pick(&[a, b, 4]));
+                    }
+                }
+                t.truncate(300);
+                t
+            } else {
+                rand_text(&mut r, &[a, b, 4, a, b], 10)
+            };
             let level = r.below(3) as u8;
             let mut want = Vec::new();
             let mut wantc = Vec::new();
